@@ -188,6 +188,12 @@ def str_slice(I, s, sl):
         return s[sl.start:sl.stop]
     t = _t(s)
     L = z3.Length(t)
+    # bounds the path condition already places inside the string: plain substr (same value, far easier queries)
+    lo_r = z3.IntVal(0) if sl.start is None else _t(sl.start)
+    hi_r = L if sl.stop is None else _t(sl.stop)
+    inside = z3.And(lo_r >= 0, lo_r <= hi_r, hi_r <= L)
+    if I.ctx.prune and I.ctx._check(z3.Not(inside)) == z3.unsat:
+        return SStr(z3.SubString(t, lo_r, hi_r - lo_r), is_bytes=is_bytes(s))
     lo = z3.IntVal(0) if sl.start is None else (
         z3.IntVal(sl.start) if isinstance(sl.start, int) and sl.start >= 0 and False else _norm_index(sl.start, L))
     hi = L if sl.stop is None else _norm_index(sl.stop, L)
